@@ -53,8 +53,14 @@ def h_c05(L, T, parts, hexholes=()):
         got = None
         L.expect_native(req, {'ok': {}})
     R, D = defects(L, T, s)
-    if R.unspecified:
+    if R.unspecified and not D:
         return 'unspecified'
+    if R.unspecified:
+        # a listed defect is present next to an unspecified repetition: acceptance is still forbidden, the error identity is not fixed
+        if got is None:
+            L.fail('accepted although the input has defect(s) %s' % ','.join(sorted(D)))
+            return 'accepted-with-defect'
+        return 'several-defects'
     if D:
         if got is None:
             L.fail('accepted although the input has defect(s) %s' % ','.join(sorted(D)))
@@ -117,6 +123,9 @@ def queries(tier):
         for n in lens(2 if th else 1):
             add(T, ['pkg:%s/n?' % ty, ('hole', 'a', 1), '=', ('hole', 'v', n), '&', ('hole', 'b', 1), '=', ('hole', 'w', n)])
         add(T, ['pkg:%s/n?ab=x&' % ty, ('hole', 'a', 2), '=y'])
+        # three occurrences of keys: an empty-valued one between two non-empty ones
+        add(T, ['pkg:%s/n?a=1&' % ty, ('hole', 'a', 1), '=', ('hole', 'v', 1), '&', ('hole', 'b', 1), '=2'])
+        add(T, ['pkg:%s/n?a=1&' % ty, ('hole', 'a', 1), '=&', ('hole', 'b', 1), '=', ('hole', 'w', 1)])
         # checksum faults
         for n in lens(5 if th else 4, 1):
             add(T, ['pkg:%s/n?checksum=' % ty, ('hole', 'h', n)])
@@ -150,8 +159,10 @@ def confirm(v, resp):
     T = {'String': 'String', 'SmallString': 'SmallString', 'Purl': 'Purl'}[v['case']['T']]
     s = list(bytes.fromhex(v['case']['s']))
     R, D = defects(_NullL, T, s)
-    if R.unspecified or not D:
+    if not D:
         return None
+    if R.unspecified:
+        return ('%r is accepted although it has defect(s) %s' % (bytes(s).decode('utf8', 'replace'), ','.join(sorted(D)))) if 'ok' in resp else None
     text = bytes(s).decode('utf8', 'replace')
     if 'ok' in resp:
         return '%r is accepted although it has defect(s) %s' % (text, ','.join(sorted(D)))
